@@ -88,21 +88,27 @@ macro_rules! c06a_mod {
     };
 }
 
-// i64-width divisibility cannot be decided by bit-blasting two 64-bit dividers; the exact quotient/remainder
-// relation at narrow divisors is decided here, full-width by the SMT-LIB division-lemma query (vlib/smt_div.py).
-macro_rules! c06a_divmod_exact_small {
-    ($name:ident, $l:ty, $r:ty, $bound:expr) => {
+// exactness of the remainder through a solver-chosen witness quotient (one multiplier instead of a second divider):
+//   for all l, r != 0, q, m0:  q*r + m0 == l  and  |m0| < |r|  and  sign(m0) in {0, sign(l)}   ==>   perform_checked(l, r) == (m0, false)
+macro_rules! c06a_mod_exact {
+    ($name:ident, $l:ty, $r:ty) => {
         #[cfg_attr(kani, kani::proof)]
         pub fn $name() {
             let l: $l = kani::any();
             let r: $r = kani::any();
-            let ri = r as i128;
-            kani::assume(ri != 0 && ri > -($bound) && ri < $bound);
-            kani::assume(!(ri == -1 && (l as i128) <= -(i64::MAX as i128)));
-            let (q, qf) = <Division<$l, $r> as CheckedBinaryOp<$l, $r, i64>>::perform_checked(l, r);
+            let q: i64 = kani::any();
+            let m0: i64 = kani::any();
+            let (li, ri, qi, mi) = (l as i128, r as i128, q as i128, m0 as i128);
+            kani::assume(ri != 0);
+            let ar = if ri < 0 { -ri } else { ri };
+            let am = if mi < 0 { -mi } else { mi };
+            kani::assume(am < ar);
+            kani::assume(mi == 0 || (mi < 0) == (li < 0));
+            kani::assume(qi * ri + mi == li);
             let (m, mf) = <Modulo<$l, $r> as CheckedBinaryOp<$l, $r, i64>>::perform_checked(l, r);
-            assert!(!qf && !mf);
-            assert!((q as i128) * ri + (m as i128) == l as i128);
+            assert!(!mf);
+            assert!(m == m0);
+            kani::cover!(m0 != 0 && q != 0, "non-trivial quotient and remainder reachable");
         }
     };
 }
@@ -140,6 +146,10 @@ c06a_inst!(c06a__add__u32_u8,  c06a__sub__u32_u8,  c06a__mul__u32_u8,  c06a__div
 c06a_inst!(c06a__add__u32_u16, c06a__sub__u32_u16, c06a__mul__u32_u16, c06a__div__u32_u16, c06a__mod__u32_u16, u32, u16);
 c06a_inst!(c06a__add__u32_u32, c06a__sub__u32_u32, c06a__mul__u32_u32, c06a__div__u32_u32, c06a__mod__u32_u32, u32, u32);
 
-c06a_divmod_exact_small!(c06a__divmod_exact__i64_i64_rlt256, i64, i64, 256i128);
-c06a_divmod_exact_small!(c06a__divmod_exact__i64_u8, i64, u8, 256i128);
-c06a_divmod_exact_small!(c06a__divmod_exact__u32_u8, u32, u8, 256i128);
+c06a_mod_exact!(c06a__mod_exact__u8_u8, u8, u8);
+c06a_mod_exact!(c06a__mod_exact__u16_u16, u16, u16);
+c06a_mod_exact!(c06a__mod_exact__u32_u32, u32, u32);
+c06a_mod_exact!(c06a__mod_exact__i64_u8, i64, u8);
+c06a_mod_exact!(c06a__mod_exact__u8_i64, u8, i64);
+c06a_mod_exact!(c06a__mod_exact__i64_u32, i64, u32);
+c06a_mod_exact!(c06a__mod_exact__i64_i64, i64, i64);
